@@ -179,7 +179,7 @@ Section Refuse.
   Definition refused (t : node C) (e : load_err) (r : node C * obs) : Prop :=
     r = (t, obs_exit (load_err_code e)).
   Theorem commands_refuse t e : load C cdig t = inr e ->
-    (forall req no_dh ip ifl, refused t e (create_folder Hb matches C cdig ser t req no_dh ip ifl)) /\
+    (forall req no_dh dr ip ifl, refused t e (create_folder Hb matches C cdig ser t req no_dh dr ip ifl)) /\
     (forall req sf ip ifl, refused t e (create_sf Hb matches C cdig ser t req sf ip ifl)) /\
     (forall d only ip ifl, refused t e (verify_like Hb matches C cdig d t only ip ifl)) /\
     (forall f co ro ip ifl, refused t e (verify_dh Hb matches C cdig t f co ro ip ifl)) /\
